@@ -1,5 +1,6 @@
 (* ShapeProofsFollow.v — the follow-up automata: "{" alone (all brace languages),
-   "{" or "throws ... {" (Java), "{" or ": ... {" (TypeScript); starts_with on each of
+   "{" or "throws ... {" (Java), "{" or ": return type {" (TypeScript, GD26: the return type is made of
+   parenthesis groups and of tokens whose text is none of ";" "{" "(" ")"); starts_with on each of
    them decides the corresponding follow-up test of LexShapes.v. *)
 From Verif Require Import Base Regex Nfa Dfa Token TokEngine GenPatterns Headers Blocks Spec HeaderSpec Scan ScanProofs.
 From Verif Require Import Unamb UnambProofs LexShapes HeaderProofsDfa HeaderProofsSelect ShapeProofsGen.
@@ -101,7 +102,7 @@ Qed.
 
 Lemma follow_rettype_skipn ts j :
   follow_rettype ts j = match skipn j ts with
-                        | x :: r => is_symbol x lbrace || (is_operator x s_colon && until_brace r)
+                        | x :: r => is_symbol x lbrace || (is_operator x s_colon && until_brace_type r 0)
                         | [] => false
                         end.
 Proof.
@@ -151,9 +152,11 @@ Proof.
     + exists None. split; reflexivity.
 Qed.
 
-(* ---------- TypeScript: "{" or ": ... {" ---------- *)
+(* ---------- TypeScript: "{" or ": type {" ---------- *)
+Definition notype : tpred :=
+  PAnd (PAnd (PNot (PValue s_semi)) (PNot (PValue lbrace))) (PAnd (PNot (PValue lparen)) (PNot (PValue rparen))).
 Definition ts_followup : expr tpred :=
-  [Union [Atom Brace] [Atom (POperator s_colon); Star [Atom nosemi]; Atom Brace]].
+  [Union [Atom Brace] [Atom (POperator s_colon); Star [Union [Atom Bal] [Atom notype]]; Atom Brace]].
 
 Definition aT : automaton tpred :=
   Eval vm_compute in match tk_to_dfa ts_followup with OK a => a | Err _ => mkAut [] [] 0%nat end.
@@ -162,8 +165,81 @@ Proof. vm_compute. reflexivity. Qed.
 Lemma okheap_aT : okheap aT = true.
 Proof. vm_compute. reflexivity. Qed.
 
+Definition TB := [2; 15]%nat.                    (* after "{" directly: accepting *)
+Definition V1 := [4; 6; 7; 9; 12]%nat.           (* after ":" *)
+Definition VG := [6; 7; 8; 9; 11; 12]%nat.       (* after a token of a parenthesis group *)
+Definition VN := [6; 7; 9; 10; 11; 12]%nat.      (* after a plain type token *)
+Definition VE := [14; 15]%nat.                   (* after the final "{": accepting *)
+
+(* the three states of the return type behave alike *)
+Definition type_state (Q : list nat) : Prop :=
+  dtrans tpred_eqb (a_heap aT) Q = [Bal; notype; Brace] /\
+  closure (a_heap aT) (move tpred_eqb (a_heap aT) Q Bal) = OK VG /\
+  closure (a_heap aT) (move tpred_eqb (a_heap aT) Q notype) = OK VN /\
+  closure (a_heap aT) (move tpred_eqb (a_heap aT) Q Brace) = OK VE /\
+  mem (a_acc aT) Q = false.
+Lemma type_state_V1 : type_state V1. Proof. repeat split; reflexivity. Qed.
+Lemma type_state_VG : type_state VG. Proof. repeat split; reflexivity. Qed.
+Lemma type_state_VN : type_state VN. Proof. repeat split; reflexivity. Qed.
+
+(* inside a group: only Balanced decides, every token is consumed *)
+Lemma aconsume_type_open Q d x : type_state Q -> 0 < d ->
+  aconsume aT Q d x = OK (Some (VG, if is_symbol x lparen then d + 1 else if is_symbol x rparen then d - 1 else d)).
+Proof.
+  intros (HT & HG & _ & _ & _) Hd. unfold aconsume. cbv zeta. rewrite HT.
+  cbn [filter]. rewrite eqb_Bal_Bal. change (tpred_eqb notype Bal) with false. change (tpred_eqb Brace Bal) with false.
+  assert (Ed : 0 <? d = true) by (apply Z.ltb_lt; exact Hd). rewrite Ed. cbv iota.
+  cbn [pfold]. rewrite eqb_Bal_Bal, (bal_step d x) by lia. rewrite Ed.
+  destruct (is_symbol x lparen); [rewrite HG; reflexivity|].
+  destruct (is_symbol x rparen); rewrite HG; reflexivity.
+Qed.
+
+(* outside the groups: "(" opens one, the symbol "{" ends, the four texts stop, anything else goes on *)
+Lemma aconsume_type_0 Q x : type_state Q ->
+  aconsume aT Q 0 x =
+  if is_symbol x lparen then OK (Some (VG, 1))
+  else if is_symbol x lbrace then OK (Some (VE, 0))
+  else if pystr_eqb (t_value x) lbrace || pystr_eqb (t_value x) s_semi
+          || pystr_eqb (t_value x) lparen || pystr_eqb (t_value x) rparen then OK None
+  else OK (Some (VN, 0)).
+Proof.
+  intros (HT & HG & HN & HE & _). unfold aconsume. cbv zeta. rewrite HT.
+  cbn [filter]. rewrite eqb_Bal_Bal. change (tpred_eqb notype Bal) with false. change (tpred_eqb Brace Bal) with false.
+  change (0 <? 0) with false. cbv iota.
+  cbn [pfold]. rewrite eqb_Bal_Bal. change (tpred_eqb notype Bal) with false. change (tpred_eqb Brace Bal) with false.
+  cbv iota. rewrite (bal_step 0 x (Z.le_refl 0)). change (0 <? 0) with false.
+  unfold notype, Brace. cbn [taccept]. unfold is_symbol.
+  destruct (kind_eqb (t_kind x) KPunct);
+  destruct (pystr_eqb (t_value x) lparen) eqn:E1; destruct (pystr_eqb (t_value x) rparen) eqn:E2;
+  destruct (pystr_eqb (t_value x) lbrace) eqn:E3; destruct (pystr_eqb (t_value x) s_semi) eqn:E4;
+  cbn [andb orb negb]; fold Brace; fold notype; rewrite ?HG, ?HN, ?HE; try reflexivity;
+  repeat match goal with H : pystr_eqb _ _ = true |- _ => apply pystr_eqb_spec in H end;
+  unfold lparen, rparen, lbrace, s_semi in *; congruence.
+Qed.
+
+Lemma aprefix_type : forall w Q d n, type_state Q -> 0 <= d ->
+  exists r, aprefix aT Q d n w = OK r /\ is_some r = until_brace_type w d.
+Proof.
+  induction w as [|x w IH]; intros Q d n HS Hd; cbn [aprefix until_brace_type].
+  - exists None. split; reflexivity.
+  - destruct (Z.ltb_spec 0 d) as [Hp|Hz].
+    + rewrite (aconsume_type_open Q d x HS Hp).
+      change (mem (a_acc aT) VG) with false. cbv iota.
+      destruct (is_symbol x lparen); [apply IH; [exact type_state_VG | lia]|].
+      destruct (is_symbol x rparen); apply IH; try exact type_state_VG; lia.
+    + assert (d = 0) by lia. subst d. rewrite (aconsume_type_0 Q x HS).
+      destruct (is_symbol x lparen).
+      * change (mem (a_acc aT) VG) with false. cbv iota. apply IH; [exact type_state_VG | lia].
+      * destruct (is_symbol x lbrace).
+        -- change (mem (a_acc aT) VE) with true. cbv iota. exists (Some (S n)). split; reflexivity.
+        -- destruct (pystr_eqb (t_value x) lbrace || pystr_eqb (t_value x) s_semi
+                     || pystr_eqb (t_value x) lparen || pystr_eqb (t_value x) rparen).
+           ++ exists None. split; reflexivity.
+           ++ change (mem (a_acc aT) VN) with false. cbv iota. apply IH; [exact type_state_VN | lia].
+Qed.
+
 Lemma aconsume_T0 x : aconsume aT U0 0 x =
-  if is_symbol x lbrace then OK (Some (UB, 0)) else if is_operator x s_colon then OK (Some (U1, 0)) else OK None.
+  if is_symbol x lbrace then OK (Some (TB, 0)) else if is_operator x s_colon then OK (Some (V1, 0)) else OK None.
 Proof.
   unfold aconsume. cbv zeta.
   change (dtrans tpred_eqb (a_heap aT) U0) with [Brace; POperator s_colon].
@@ -182,7 +258,12 @@ Proof.
   destruct (is_symbol x lbrace) eqn:E1; cbn [orb].
   - exists (Some 1%nat). split; reflexivity.
   - destruct (is_operator x s_colon); cbn [andb].
-    + change (mem (a_acc aT) U1) with false. cbv iota.
-      apply (aprefix_loop1 aT U2 UE); reflexivity.
+    + change (mem (a_acc aT) V1) with false. cbv iota.
+      apply (aprefix_type r V1 0 1%nat type_state_V1 (Z.le_refl 0)).
     + exists None. split; reflexivity.
 Qed.
+
+(* the same statement written out *)
+Corollary follow_rettype_starts_with ts j :
+  exists r, tk_starts_with_dfa aT (skipn j ts) = OK r /\ is_some r = follow_rettype ts j.
+Proof. exact (follow_rettype_decides ts j). Qed.
